@@ -12,7 +12,11 @@ EXTENDS Gql, TLC
 
 CONSTANTS MaxFrags,      \* number of named fragments declared up front (0..MaxFrags)
           MaxNodes,      \* soft budget of nodes per definition
-          FieldPool      \* set of field names the generator may select ({} = all)
+          FieldPool,     \* set of field names the generator may select ({} = all)
+          Extended       \* set of relaxations: also build documents that are valid GraphQL but outside what
+                         \* the generator promises to accept:
+                         \*   "noTypename"   abstract selections without __typename
+                         \*   "abstractCond" type conditions on ANOTHER abstract type that overlaps the scope
 
 VARIABLES doc,      \* [defs, nodes]
           cur,      \* index of the definition under construction; Len(defs)+1 when finished
@@ -50,7 +54,7 @@ PromisedTypename(d, p, t) ==
 
 SetComplete(d, p, t) ==
   /\ ChildSet(doc, d, p) # {}
-  /\ IsAbstract(S, t) => (HasTypename(doc, d, p, t, {}) \/ PromisedTypename(d, p, t))
+  /\ (IsAbstract(S, t) /\ "noTypename" \notin Extended) => (HasTypename(doc, d, p, t, {}) \/ PromisedTypename(d, p, t))
 
 \* levels deeper than j can be closed
 Closable(j) == \A k \in (j + 1)..Len(path) : SetComplete(cur, path[k], LevelType(k))
@@ -113,7 +117,10 @@ AddInline ==
   /\ \E j \in 0..Len(path) :
        /\ Closable(j)
        /\ IsAbstract(S, LevelType(j))
-       /\ \E on \in PossibleTypes(S, LevelType(j)) :
+       /\ \E on \in PossibleTypes(S, LevelType(j)) \cup
+                     (IF "abstractCond" \in Extended THEN {a \in DOMAIN S : /\ IsComposite(S, a) /\ IsAbstract(S, a) /\ a # LevelType(j)
+                                                          /\ Overlaps(S, a, LevelType(j))}
+                      ELSE {}) :
             /\ Push(InlineNode(cur, LevelNode(j), on))
             /\ path' = Append(SubPath(j), Len(doc.nodes) + 1)
   /\ UNCHANGED <<cur, budget>>
@@ -181,4 +188,13 @@ AllSetsDistinct(d) ==
 Supported(d) ==
   /\ Valid(S, d, R0)
   /\ AllSetsDistinct(d)
+
+\* valid GraphQL without field merging that the generator need not accept
+\* (an inline fragment on an abstract type passes the rule catalogue - it is valid GraphQL - but the
+\* generator documents no support for it and refuses it)
+UsesAbstractCond(d) == \E i \in NodeIds(d) : d.nodes[i].k = "inline" /\ IsAbstract(S, d.nodes[i].on)
+MaybeRefused(d) ==
+  /\ ValidSpec(S, d, R0)
+  /\ AllSetsDistinct(d)
+  /\ (~Valid(S, d, R0) \/ UsesAbstractCond(d))
 =============================================================================
